@@ -86,3 +86,6 @@ Definition py_remap_slots (m : tdict nat) (slots : list (option K)) : tdict nat 
 (* sorted_list == self.item_list *)
 Definition py_klist_eq_slots (l : list K) (slots : list (option K)) : bool :=
   list_eqb slot_eqb (map Some l) slots.
+
+(* `self is other` for an explicit operand: never the same object (the aliasing calls are SelfOp / SelfMix) *)
+Definition py_same_object (s : iset) (o : operand) : bool := false.
